@@ -15,6 +15,7 @@ import KafkaVerif.Lemmas.WriterLogJournal
 import KafkaVerif.Lemmas.WriterProgress
 import KafkaVerif.Lemmas.WriterQuiesce
 import KafkaVerif.Lemmas.WriterCopies
+import KafkaVerif.Lemmas.WriterMsgCount
 import KafkaVerif.Lemmas.RecordWriter
 import KafkaVerif.Gen.WriterConsts
 
@@ -329,6 +330,23 @@ theorem log_is_applied_journal (cfg : Cfg) (s : State) (hr : Reachable cfg s) (t
       (s.journal.filter (fun j => j.out.applied && (j.tp == tp))).flatMap (fun j => batchMsgs s.batches j.batch) :=
   (invLogJ cfg s hr).logJournal tp
 
+/-- a produce request of a reachable state carries at least one message (C08.produce_nonempty, restated here for the
+compositions below) -/
+theorem produce_request_nonempty (cfg : Cfg) (s s' : State) (hr : Reachable cfg s) (pw : Nat) (tp : TP) (msgs : List Msg) (out : BrOut)
+    (hs : step cfg s (.produce pw tp msgs out) = some s') : msgs ≠ [] := by
+  have hA := invAck cfg s hr
+  have hF := invFresh cfg s hr
+  simp only [step, stepProduce] at hs
+  repeat' split at hs
+  all_goals (first | (cases hs; done) | skip)
+  rename_i _ P hP _ b k hsend _ B hB hg
+  obtain ⟨-, -, -, hm, -⟩ := hg
+  have hdet := hA.sentDet pw P hP b (sender_mem_sent (by rw [hsend]; rfl)) B hB
+  have := hF.detNonempty b B hB hdet
+  intro he
+  rw [← hm] at he
+  exact this (List.map_eq_nil_iff.mp he)
+
 /-- **produce_on_the_wire** — the Writer LTS composed with the record-batch writer model of C05
 (`protocol/record_v2.go writeToVersion2`, the encoder the Transport uses for produce v3+): for every produce event of
 every reachable state and every assignment `payload` of contents (time, key, value, headers) to the messages, the
@@ -347,22 +365,30 @@ theorem produce_on_the_wire (cfg : Cfg) (s s' : State) (hr : Reachable cfg s) (p
       Spec.RB.flattenEntry ⟨crc, crc⟩ (fun _ _ => none) (.batch f) =
         some (Spec.RB.isControl attrs,
           Model.RecordWriter.expected ((msgs.map payload).map (Model.RecordWriter.effTime now)) (msgs.map payload)) := by
-  -- the request is not empty
-  have hne : msgs ≠ [] := by
-    have hA := invAck cfg s hr
-    have hF := invFresh cfg s hr
-    simp only [step, stepProduce] at hs
-    repeat' split at hs
-    all_goals (first | (cases hs; done) | skip)
-    rename_i _ P hP _ b k hsend _ B hB hg
-    obtain ⟨-, -, -, hm, -⟩ := hg
-    have hdet := hA.sentDet pw P hP b (sender_mem_sent (by rw [hsend]; rfl)) B hB
-    have := hF.detNonempty b B hB hdet
-    intro he
-    rw [← hm] at he
-    exact this (List.map_eq_nil_iff.mp he)
+  have hne : msgs ≠ [] := produce_request_nonempty cfg s s' hr pw tp msgs out hs
   have hne' : msgs.map payload ≠ [] := fun h => hne (List.map_eq_nil_iff.mp h)
   obtain ⟨bytes, f, h1, h2, -, h4, -, h6⟩ := Model.RecordWriter.writeV2_spec crc hcrc attrs now (msgs.map payload) hne' hwf hcodec hlog
+  exact ⟨bytes, f, h1, h2, by rw [h4, List.length_map], h6⟩
+
+/-- **produce_on_the_wire_compressed** — the same composition for a Writer with `Compression` set (C05's
+`writeV2C_spec`): the batch's records are compressed as one payload with the configured codec `comp`; for every
+decompressor `dec` that inverts it the independent decoder recovers exactly the batch's messages, in order — compression
+passes the batch through untouched, whatever the codec. -/
+theorem produce_on_the_wire_compressed (cfg : Cfg) (s s' : State) (hr : Reachable cfg s) (pw : Nat) (tp : TP) (msgs : List Msg)
+    (out : BrOut) (hs : step cfg s (.produce pw tp msgs out) = some s')
+    (payload : Msg → Model.RecordWriter.PRec) (crc : Bytes → Nat) (hcrc : ∀ b, crc b < RW.M32)
+    (comp : Bytes → Bytes) (dec : Int → Bytes → Option Bytes) (attrs now : Int)
+    (hwf : (Model.RecordWriter.frameOfV2C comp attrs now (msgs.map payload)).WF) (hcodec : Spec.RB.codecOf attrs ≠ 0)
+    (hlog : Spec.RB.logAppend attrs = false) (hdec : ∀ p, dec (Spec.RB.codecOf attrs) (comp p) = some p) :
+    ∃ bytes f, Model.RecordWriter.writeV2C crc comp attrs now (msgs.map payload) = some bytes ∧
+      Spec.RB.readFrame crc bytes = some (f, []) ∧ f.count = msgs.length ∧
+      Spec.RB.flattenEntry ⟨crc, crc⟩ dec (.batch f) =
+        some (Spec.RB.isControl attrs,
+          Model.RecordWriter.expected ((msgs.map payload).map (Model.RecordWriter.effTime now)) (msgs.map payload)) := by
+  have hne : msgs ≠ [] := produce_request_nonempty cfg s s' hr pw tp msgs out hs
+  have hne' : msgs.map payload ≠ [] := fun h => hne (List.map_eq_nil_iff.mp h)
+  obtain ⟨bytes, f, h1, h2, -, h4, -, h6⟩ :=
+    Model.RecordWriter.writeV2C_spec crc hcrc comp dec attrs now (msgs.map payload) hne' hwf hcodec hlog hdec
   exact ⟨bytes, f, h1, h2, by rw [h4, List.length_map], h6⟩
 
 /-- **return_enabled_when_batches_done** — a synchronous caller is never stuck once its batches are completed: when
@@ -453,6 +479,37 @@ theorem copies_bounded (cfg : Cfg) (hmax : 1 ≤ cfg.maxAttempts) (s : State) (h
   refine ⟨h1, ?_⟩
   rw [(invJournal cfg s hr).logCount b B hB]
   exact Nat.mul_le_mul_right _ h1
+
+/-- **copies_per_message** — for every message of every batch: the number of entries of the partition log that
+carry it is the number of attempts of its batch the broker applied; that number is at most MaxAttempts, and at least 1
+once the batch is acknowledged. -/
+theorem copies_per_message (cfg : Cfg) (hmax : 1 ≤ cfg.maxAttempts) (s : State) (hr : Reachable cfg s) (b : Nat) (B : Batch)
+    (hB : s.batches b = some B) (m : BMsg) (hm : m ∈ B.msgs) :
+    (s.log B.tp).countP (fun e => e.msg == m.msg) = B.napplied ∧ B.napplied ≤ cfg.maxAttempts ∧
+      (B.acked = true → 1 ≤ B.napplied) := by
+  refine ⟨invMsgCount cfg s hr b B hB m hm, (invCopies cfg hmax s hr).bound b B hB, ?_⟩
+  intro hack
+  have := (invJournal cfg s hr).counts b B hB
+  rw [hack] at this
+  simp only [if_true] at this
+  rw [this]; exact Nat.le_add_left _ _
+
+/-- **ok_means_at_least_once_at_most_maxAttempts** — when a synchronous WriteMessages call returns nil, every message
+of the call stands in the log of the topic-partition the balancer chose for it at least once and at most MaxAttempts
+times (more than once only after lost acknowledgements: `dups_only_after_lost_ack`; nowhere else: `no_foreign_partition`). -/
+theorem ok_means_at_least_once_at_most_maxAttempts (cfg : Cfg) (hmax : 1 ≤ cfg.maxAttempts) (s s' : State)
+    (hr : Reachable cfg s) (c : Nat) (hs : step cfg s (.ret c .ok) = some s') :
+    ∃ C, s.calls c = some C ∧ ∀ i, i < C.msgs.length → ∃ tp, C.assign[i]? = some tp ∧
+      1 ≤ (s.log tp).countP (fun e => e.msg == (c, i)) ∧ (s.log tp).countP (fun e => e.msg == (c, i)) ≤ cfg.maxAttempts := by
+  obtain ⟨C, hC, -, hall⟩ := ack_exact cfg s s' hr c hs
+  refine ⟨C, hC, ?_⟩
+  intro i hi
+  obtain ⟨b, B, -, hB, hack, hasg, ⟨m, hm, hmm⟩, -⟩ := hall i hi
+  obtain ⟨h1, h2, h3⟩ := copies_per_message cfg hmax s hr b B hB m hm
+  rw [hmm] at h1
+  refine ⟨B.tp, hasg, ?_, ?_⟩
+  · rw [h1]; exact h3 hack
+  · rw [h1]; exact h2
 
 /-- **no_copy_before_sending** — a batch that is neither completed nor with the sender goroutine of its partition
 (still attached, or waiting in the queue) has no entry in any log yet: nothing reaches the broker except through the
